@@ -147,6 +147,58 @@ def inline_single_use_temporaries(tree: ast.AST) -> int:
     return total
 
 
+
+_POSITIVE = {ast.IsNot: ast.Is, ast.NotEq: ast.Eq, ast.NotIn: ast.In}
+
+
+def _positive_test(test: ast.expr) -> tuple[ast.expr, bool]:
+    """(test written positively, whether the meaning was kept) — `not c`, `is not`, `!=`, `not in` are negative spellings."""
+    keep = True
+    changed = True
+    while changed:
+        changed = False
+        if isinstance(test, ast.UnaryOp) and isinstance(test.op, ast.Not):
+            test, keep, changed = test.operand, not keep, True
+        elif isinstance(test, ast.Compare) and len(test.ops) == 1 and type(test.ops[0]) in _POSITIVE:
+            test = ast.copy_location(ast.Compare(left=test.left, ops=[_POSITIVE[type(test.ops[0])]()], comparators=test.comparators), test)
+            keep, changed = not keep, True
+    return test, keep
+
+
+def _negated(test: ast.expr) -> ast.expr:
+    pos, keep = _positive_test(test)
+    if not keep:
+        return pos
+    return ast.copy_location(ast.UnaryOp(op=ast.Not(), operand=test), test)
+
+
+def normalise_branches(tree: ast.AST) -> int:
+    """Second part of the source normal form (orientation of branches):
+      * `if <negative test>: A else: B` (B not an elif) becomes `if <positive test>: B else: A`;
+      * an `if C: body` without else that is the last statement of a loop body becomes `if not C: continue` followed by body
+        (the early-exit style the repository uses), recursively.
+    Guard chains are unaffected in meaning; rules that look at the arms of an `if` or at early exits see one shape."""
+    n = 0
+    for node in list(ast.walk(tree)):
+        if isinstance(node, ast.If) and node.orelse and not (len(node.orelse) == 1 and isinstance(node.orelse[0], ast.If)):
+            pos, keep = _positive_test(node.test)
+            if not keep:
+                node.test, node.body, node.orelse = pos, node.orelse, node.body
+                n += 1
+    changed = True
+    while changed:
+        changed = False
+        for node in list(ast.walk(tree)):
+            if isinstance(node, (ast.For, ast.AsyncFor, ast.While)) and node.body:
+                last = node.body[-1]
+                if isinstance(last, ast.If) and not last.orelse and not (len(last.body) == 1 and isinstance(last.body[0], (ast.Continue, ast.Break, ast.Return, ast.Raise))) \
+                        and not any(isinstance(x, (ast.Break,)) for x in []):
+                    guard = ast.copy_location(ast.If(test=_negated(last.test), body=[ast.copy_location(ast.Continue(), last)], orelse=[]), last)
+                    node.body = node.body[:-1] + [guard] + list(last.body)
+                    n += 1
+                    changed = True
+    return n
+
 def _header_exprs(st: ast.stmt) -> list[tuple[ast.AST, str]]:
     """(owner, field) pairs of the expressions a statement evaluates itself (not its nested blocks)."""
     if isinstance(st, (ast.Expr, ast.Return)):
@@ -254,6 +306,7 @@ class Repo:
                 raise AnalysisError(f"cannot parse {rel}: {e}") from e
             if os.environ.get("FV_NO_DETEMP") != "1":
                 inline_single_use_temporaries(tree)
+                normalise_branches(tree)
             m = Module(name=name, path=p, rel=rel, src=src, tree=tree)
             self._index(m)
             self.modules[name] = m
